@@ -365,6 +365,8 @@ req0_recv_cb(void *arg)
 
 	// We have our match, so we can remove this.
 	nni_list_node_remove(&ctx->send_node);
+	nni_list_node_remove(&ctx->pipe_node);
+	nni_list_node_remove(&ctx->retry_node);
 	nni_id_remove(&s->requests, id);
 	ctx->request_id = 0;
 	if (ctx->req_msg != NULL) {
